@@ -64,13 +64,15 @@ def shards(tier, seed):
         out.append({"part": "sample", "gen": name, "seed": seeds[-1]})
     out.append({"part": "cascade"})
     out.append({"part": "xproc", "seed": seeds[-1]})
+    for name in specs():
+        out.append({"part": "long", "gen": name, "seed": seeds[-1]})
     return out
 
 
 def run_shard(shard):
     import logging
     logging.disable(logging.CRITICAL)
-    return {"bfs": _bfs, "sample": _sample, "cascade": _cascade, "hist": _hist, "xproc": _xproc}[shard["part"]](shard)
+    return {"bfs": _bfs, "sample": _sample, "cascade": _cascade, "hist": _hist, "xproc": _xproc, "long": _long}[shard["part"]](shard)
 
 
 def replay(case):
@@ -270,4 +272,46 @@ def _xproc(shard):
         if len(set(vals)) != 1:
             out["failures"].append(fw.fail(f"xproc/{k.split('/')[0]}", f"generator {k.rsplit('/', 1)[0]} with seed {k.rsplit('/', 1)[1]} produces different samples in different interpreter processes (PYTHONHASHSEED 1, 2, random): digests {vals}", dict(shard)))
     out["samples"].append({"xproc": "same seed in 3 interpreter processes with different hash randomisation"})
+    return out
+
+
+def _long(shard):
+    """Requests far longer than any internal block or buffer: one request of n samples equals the concatenation of the same n
+    samples drawn in blocks of 4096 / 50000 / one-big-plus-rest, and the stand-alone cascade equals the reference sections."""
+    from scipy.signal import lfilter
+    from speckit import noise
+
+    make0 = specs()[shard["gen"]]
+    seed = shard["seed"]
+    out = {"evals": 0, "nontrivial": 0, "failures": [], "samples": [], "extra": {}}
+    for n in (65536 + 5, 70000, 131072 + 4097, 200001):
+        whole = np.asarray(make0(seed).get_series(n))
+        for blocks in ([4096] * (n // 4096) + [n % 4096], [50000] * (n // 50000) + [n % 50000], [n - 7, 7], [1, n - 1]):
+            g = make0(seed)
+            parts = [np.asarray(g.get_series(b)) for b in blocks if b >= 0]
+            cat = np.concatenate(parts)
+            out["evals"] += 1
+            out["nontrivial"] += 1
+            if cat.shape != whole.shape or not np.array_equal(cat, whole):
+                j = int(np.nonzero(cat != whole)[0][0]) if cat.shape == whole.shape else -1
+                out["failures"].append(fw.fail(f"long/{shard['gen']}", f"{shard['gen']} seed={seed}: one request of {n} samples differs from the same samples drawn in blocks {blocks[:3]}...: first difference at sample {j}", dict(shard)))
+                break
+    if shard["gen"].startswith("alpha1.3/raw"):
+        cascade = getattr(noise, "_numba_lfilter_cascade", None)
+        if cascade is not None:
+            A = np.array([[1.2, -0.9], [1.1, -0.7], [1.05, -0.2]])
+            B = np.array([[1.0, -0.95], [1.0, -0.8], [1.0, -0.3]])
+            x = records.id1(70003)
+            y, zf = cascade(np.ascontiguousarray(x), A, B, np.zeros((3, 1)))
+            r = x.copy()
+            zr = []
+            for i in range(3):
+                r, z = lfilter(A[i], B[i], r, zi=np.zeros(1))
+                zr.append(z[0])
+            out["evals"] += 1
+            out["nontrivial"] += 1
+            if not (np.allclose(y, r, rtol=1e-10, atol=1e-10) and np.allclose(np.asarray(zf)[:, 0], zr, rtol=1e-9, atol=1e-10)):
+                j = int(np.argmax(np.abs(np.asarray(y) - r)))
+                out["failures"].append(fw.fail("long/cascade", f"cascade on 70003 samples differs from the reference sections (largest difference at sample {j}: {np.asarray(y)[j]!r} vs {r[j]!r})", dict(shard)))
+    out["samples"].append({"long": shard["gen"], "n": [65541, 70000, 135169, 200001]})
     return out
